@@ -241,7 +241,7 @@ class Mix(Scenario):
                 self._merge_publisher_actors(w)
             return pub
 
-        if it.pub in ('rx3', 'rx4', 'rx3bp', 'rx4bp'):
+        if it.pub in ('rx3', 'rx4', 'rx3bp', 'rx4bp', 'rx3bpq', 'rx4bpq'):
             return self._rx_publisher(w, it, side, role, count)
 
         if it.pub == 'sync':
@@ -285,7 +285,31 @@ class Mix(Scenario):
             import reactivex as RX
             from rsocket.reactivex import back_pressure_publisher as bp
         name = 'pub' + it.tag + role
-        if it.pub.endswith('bp'):
+        if it.pub.endswith('bpq'):
+            # back-pressure source over a queue that the application fills one element per application event (paced production):
+            # with credit to spare, a CANCEL arrives while the source is waiting for the next element
+            counter = [0]
+
+            class LoggedQueue(asyncio.Queue):
+                async def get(self_q):
+                    v = await asyncio.Queue.get(self_q)
+                    if v is not None:
+                        w.api(side, name, 'produce', (counter[0],))
+                        counter[0] += 1
+                    return v
+
+            q = LoggedQueue()
+            steps = [Step('feed%d' % i, lambda w, e=e: q.put_nowait(e)) for i, e in enumerate(items)]
+            steps.append(Step('feed-end', lambda w: q.put_nowait(None)))
+            w.add_actor('feed' + it.tag + role, steps)
+
+            def factory(backpressure):
+                backpressure.subscribe(on_next=lambda n: w.api(side, name, 'request', (n,)),
+                                       on_completed=lambda: w.api(side, name, 'cancel', ()))
+                return bp.observable_from_queue(q, backpressure)
+
+            pub = bp.observable_to_publisher(bp.from_observable_with_backpressure(factory))
+        elif it.pub.endswith('bp'):
             q = asyncio.Queue()
             for e in items:
                 q.put_nowait(e)
